@@ -15,12 +15,18 @@ use super::try_sync_error::*;
 
 use std::fmt;
 use std::mem;
+#[cfg(not(desync_verif))]
 use std::sync::*;
+#[cfg(desync_verif)]
+use crate::vsched::sync::*;
 use std::collections::vec_deque::*;
 use std::result::{Result};
 
 use futures::prelude::*;
+#[cfg(not(desync_verif))]
 use futures::channel::oneshot;
+#[cfg(desync_verif)]
+use crate::vsched::oneshot;
 use futures::future::{Future};
 
 #[cfg(not(target_arch = "wasm32"))]
@@ -36,9 +42,18 @@ lazy_static! {
 ///
 /// The default maximum number of threads in a scheduler 
 ///
+#[cfg(not(desync_verif))]
 #[cfg(not(target_arch = "wasm32"))]
 fn initial_max_threads() -> usize {
     MIN_THREADS.max(num_cpus::get()*2)
+}
+
+///
+/// Verification hook: the pool maximum comes from the replay runtime
+///
+#[cfg(desync_verif)]
+fn initial_max_threads() -> usize {
+    crate::vsched::configured_max()
 }
 
 ///
